@@ -91,6 +91,12 @@ def judge_record(rin, rout, mode, converted):
         bad.append((classify(fin, fout), f"optional fields {rin.opt} came out as {rout.opt}"))
     had_cg = any(o.startswith("cg:") for o in rin.opt)
     out_cg = [o for o in rout.opt if o.startswith("cg:")]
+    if fin == fout and had_cg and len(out_cg) == 1:
+        # the CIGAR may be rewritten, but it stays one of the fields "in the original order"
+        kin = [o[:5] for o in rin.opt if o[:2] != "ds"]
+        kout = [o[:5] for o in rout.opt if o[:2] != "ds"]
+        if kin != kout:
+            bad.append(("cg-moved", f"the CIGAR field changed its position among the optional fields: {rin.opt} -> {rout.opt}"))
     if out_cg and not had_cg and not mode.startswith("realign"):
         bad.append(("cg-invented", f"the input has no CIGAR field, the output has {out_cg}"))
     if mode == "realign-passthrough" and out_cg and not had_cg:
